@@ -169,7 +169,7 @@ def run_tlc(workdir, name, module, cfg, workers=1, simulate=None, seed=None, tim
     text = "".join(tail)
     if rc == 0:
         return res
-    if rc in (12, 13) or "is violated" in text:
+    if rc in (12, 13) or "is violated" in text or "The first argument of Assert evaluated to FALSE" in text:
         res.violation = text[-6000:]
         return res
     raise ToolError("TLC failed (rc=%s) for %s: see %s\n%s" % (rc, name, outp, text[-3000:]))
